@@ -74,7 +74,7 @@ async def do_op(sim, request):
     if kind == "hints_direct":
         return await hints_provider.get_hints(op["keys"], raise_key_error=op.get("raise_key_error", True))
     if kind == "gather_mixed":
-        rid = REQ.get()
+        rid = REQ.get().split("+")[0]  # (a follow-up message of a worker task carries the task's request id)
 
         async def awaitable(tag):
             await sim.pause("aw", tag)
@@ -291,10 +291,25 @@ def generate(seed, tier="quick"):
             cer["hints"].pop(op["drop"]["hint"], None)
         requests.append({"rid": rid, "start": rnd.choice([0, 0, 0, 1, 2, 7]), "op": op, "cer": cer,
                          "peer_set": rnd.randrange(2) if world.get("two_formats") else 0})
+    for request in requests:
+        if rnd.random() < 0.15:
+            # a worker task that processes one message after the other: the next one has other data
+            rid = request["rid"]
+            follow_packages = {}
+            for pkey in package_kinds:
+                ast, _ = gen_valid(rnd, rnd.randint(0, 2), rc, hints, fcs, want=("rc",))
+                follow_packages[pkey] = render(ast, rnd, "wild")
+            follow_cer = make_cer(rid, rc={k: rnd.choice(STATES) for k in rc}, fc={k: rnd.random() < 0.5 for k in fcs},
+                                  hints=hints, packages=follow_packages)
+            follow_op = _gen_op(rnd, rc, hints, fcs, package_kinds, flavour)
+            if not follow_op.get("drop") and not request["op"].get("drop"):
+                request["follow_ups"] = [{"op": follow_op, "cer": follow_cer, "peer_set": request.get("peer_set", 0)}]
     if n_requests >= 2 and rnd.random() < 0.12:
         # result objects must not be shared between evaluations: one evaluation is won by a trailing bare modal mark
         # (all conditional parts unfulfilled), others evaluate bare indicators - before, after or at the same time
         loser = rnd.choice(rc)
+        for request in requests:
+            request.pop("follow_ups", None)
         requests[0]["cer"]["requirement_constraints"][loser] = "UNFULFILLED"
         parts = [("MUSS", ("k", loser)), (rnd.choice(["KANN", "MUSS", "SOLL"]), None)]
         requests[0]["op"] = {"op": "ahb_eval", "parts": parts, "expr": render_ahb(parts, rnd), "resolve": True,
@@ -347,7 +362,7 @@ def _direct_clause(request, outcome, world):
         if pairs is None or sorted(p[0] for p in pairs) != expected_keys:
             return f"get_hints({op['keys']}) returned keys {pairs}"
         for key, value in pairs:
-            if value.get("hint") != f"H{key}@{rid}" or value.get("condition_key") != key:
+            if value.get("hint") != f"H{key}@{rid.split('+')[0]}" or value.get("condition_key") != key:
                 return f"get_hints: key {key} paired with {value}"
     if op["op"] == "fc_direct":
         pairs = result.get("!dict") if isinstance(result, dict) else None
@@ -365,16 +380,27 @@ def _direct_clause(request, outcome, world):
             elif value.get("error_message") != entry["error_message"]:
                 return f"evaluate_format_constraints: key {key} paired with {value}"
     if op["op"] == "gather_mixed":
-        expected = [f"{'A' if item[0] == 'a' else 'V'}{item[1]}@{rid}" for item in op["items"]]
+        expected = [f"{'A' if item[0] == 'a' else 'V'}{item[1]}@{rid.split('+')[0]}" for item in op["items"]]
         if result != expected:
             return f"gather_if_necessary returned {result}, expected {expected}"
     return None
 
 
+def _flatten(scenario):
+    """every follow-up as a stand-alone request of its own (that is what its reference is)"""
+    flat = []
+    for request in scenario["requests"]:
+        flat.append({k: v for k, v in request.items() if k != "follow_ups"})
+        for number, follow_up in enumerate(request.get("follow_ups") or [], 1):
+            flat.append(dict(follow_up, rid=f"{request['rid']}+{number}", fault=request.get("fault")))
+    return flat
+
+
 def execute(scenario):
-    observed = [r for r in scenario["requests"] if not r.get("fault")]
-    references = {r["rid"]: solo_reference(scenario, r["rid"], "sim.props.c12") for r in observed}
-    substituted = {r["rid"]: _substituted_reference(scenario, r) for r in observed}
+    flat = dict(scenario, requests=_flatten(scenario))
+    observed = [r for r in flat["requests"] if not r.get("fault")]
+    references = {r["rid"]: solo_reference(flat, r["rid"], "sim.props.c12") for r in observed}
+    substituted = {r["rid"]: _substituted_reference(flat, r) for r in observed}
     try:
         sim, outcomes = run_requests(scenario, do_op)
     except LIVENESS_ERRORS as error:
@@ -404,7 +430,7 @@ def execute(scenario):
                 f"the textually substituted expression gives {dumps(substituted[rid])[:600]}",
             )
         text = dumps(outcome)
-        foreign = sorted({t for t in TAG.findall(text) if t != rid})
+        foreign = sorted({t for t in TAG.findall(text) if t != rid.split("+")[0]})
         if foreign:
             fail(verdict, f"isolation:{kind}", f"{rid}: result carries data of {foreign}: {text[:600]}")
         if outcome != references[rid]:
@@ -419,7 +445,7 @@ def execute(scenario):
 
 # ------------------------------------------------------------------------------------------------------ shrink
 def size(scenario):
-    total = len(scenario["requests"]) * 10
+    total = len(scenario["requests"]) * 10 + 8 * sum(len(r.get("follow_ups") or []) for r in scenario["requests"])
     for request in scenario["requests"]:
         op = request["op"]
         total += ast_size(to_tuple(op["ast"])) if op.get("ast") else 0
@@ -444,6 +470,10 @@ def shrink(scenario):
             del candidate["requests"][index]
             yield candidate
     for index, request in enumerate(requests):
+        if request.get("follow_ups"):
+            candidate = clone(scenario)
+            del candidate["requests"][index]["follow_ups"]
+            yield candidate
         if request.get("fault"):
             candidate = clone(scenario)
             del candidate["requests"][index]["fault"]
